@@ -121,7 +121,16 @@ def run_property(prop, tier="quick", seed=0, explain=None):
             ctx.cfg = cfg
             if cfg == "A" and not getattr(mod, "RUN_IN_A", False):
                 continue
-            mod.run(ctx)
+            try:
+                mod.run(ctx)
+            except build.BuildError:
+                raise
+            except Exception as e:      # fail closed: an unexpected program shape must not pass silently
+                tb = traceback.extract_tb(e.__traceback__)
+                where = "%s:%d" % (os.path.basename(tb[-1].filename), tb[-1].lineno) if tb else "?"
+                ctx.ob("ENGINE", "analysis-error[%s]" % cfg, False,
+                       "the rule engine could not analyse this tree (%s: %s at %s); treated as not established"
+                       % (type(e).__name__, str(e)[:200], where), detail=traceback.format_exc()[-1500:])
     except build.BuildError as e:
         print("ERROR property=%s cannot analyse /repo: %s" % (prop, e))
         return 2
